@@ -50,6 +50,21 @@ def partial_frame_step(evs: List[dict]) -> int:
     return 0
 
 
+def closed_twice_step(evs: List[dict]) -> int:
+    """1-based index of the first event in which some connection receives a SECOND CLIENT_CLOSED notice about the same departed
+    module (judged on the observation alone)"""
+    seen: Dict[str, set] = {}
+    for i, e in enumerate(evs):
+        for c, frames in (e.get("emit") or {}).items():
+            for f in frames:
+                if f.get("t") == 33 and f.get("src") == 0 and isinstance(f.get("p"), dict) and "uid" in f["p"]:
+                    k = f["p"]["uid"]
+                    if k in seen.setdefault(c, set()):
+                        return i + 1
+                    seen[c].add(k)
+    return 0
+
+
 def repo_test_traces() -> List[dict]:
     """run the repository's own integration tests on vio under the recording plugin (vf/pytest_vio.py)"""
     import subprocess
@@ -92,7 +107,7 @@ def run_repo_tests(prop: str) -> Dict[str, Any]:
             "other_kinds": kinds, "violations": viol, "pytest_rc": rc}
 
 
-def run_family(prop: str, fam: str, tier: str, seed: int, num: int, depth: int, nprof: int, scen=None, timing: bool = True, log_level=None) -> Dict[str, Any]:
+def run_family(prop: str, fam: str, tier: str, seed: int, num: int, depth: int, nprof: int, scen=None, timing: bool = True, log_level=None, force_log: bool = False) -> Dict[str, Any]:
     if scen == "repo-tests":
         return run_repo_tests(prop)
     if scen is not None:
@@ -119,7 +134,7 @@ def run_family(prop: str, fam: str, tier: str, seed: int, num: int, depth: int, 
         profiles = [Profile(seed * 7 + i, log_level=log_level) for i in range(nprof)]      # the manager's own logging switched on
     for pr in profiles:
         pr.timing = timing          # send_msg_timing option of the manager
-    runs = engine.replay_all(behs, profiles)
+    runs = engine.replay_all(behs, profiles, log_level=log_level if force_log else None)     # force_log: logging stays on although peers die
     verdicts = engine.run_and_validate([{"tid": r["tid"], "ev": r["ev"]} for r in runs], cfg="Manager_Trace.cfg" if timing else "Manager_Trace_notiming.cfg")
     violations = []
     other = 0
@@ -134,6 +149,10 @@ def run_family(prop: str, fam: str, tier: str, seed: int, num: int, depth: int, 
         elif pf and pf == v.get("step", 0):
             # the step the specification rejects ALSO leaves a torn frame on a connection that stays open
             v = dict(v, props=sorted(set(v.get("props", [])) | {"C05.PartialFrame"}))
+        # C07 exactly one CLIENT_CLOSED (observation-level clause)
+        ct = closed_twice_step(r["ev"])
+        if ct and (v["res"] == "ok" or ct <= v.get("step", 0) or r.get("crashed")):
+            v = dict(v, res="fail", step=min(ct, v.get("step") or ct), props=sorted(set(v.get("props", [])) | {"C07.ClosedTwice"}))
         # the manager thread died with an exception: C03, whatever else the trace shows
         if r.get("crashed") and not str(r["crashed"]).startswith(("WouldBlock", "HarnessError")):
             v = dict(v, res="fail", props=sorted(set(v.get("props", [])) | {"C03"}), step=v.get("step") or len(r["ev"]))
@@ -172,7 +191,7 @@ def run(prop: str, tier: str, seed: int) -> Dict[str, Any]:
         q = tier == "quick"
         res = run_family(prop, item["fam"], tier, seed, num=item["num_q"] if q else item["num_t"],
                          depth=item.get("depth", 80), nprof=item.get("prof_q", 2) if q else item.get("prof_t", 4),
-                         scen=item.get("scen"), timing=item.get("timing", True), log_level=item.get("log_level"))
+                         scen=item.get("scen"), timing=item.get("timing", True), log_level=item.get("log_level"), force_log=item.get("force_log", False))
         states += res["mc"].get("distinct", 0)
         trans += res["mc"].get("states", 0)
         ntr += len(res["runs"])
